@@ -236,6 +236,8 @@ func Ops() []Op {
 			}
 			return dump.Subs(s)
 		}},
+		readOp("read-ttml-anonymous", "ttml", []byte(`<tt xmlns="http://www.w3.org/ns/ttml" xmlns:tts="http://www.w3.org/ns/ttml#styling"><head><styling><style tts:color="red"/></styling><layout><region tts:origin="10% 10%"/></layout></head><body><div><p begin="1s" end="2s">x</p><p xml:id="p2" begin="3s" end="4s"><span>y</span></p></div></body></tt>`)),
+		readOp("read-vtt-no-ids", "vtt", []byte("WEBVTT\n\nRegion: id=a width=40%\n\n00:01.000 --> 00:02.000 region:a\nx\n\n00:03.000 --> 00:04.000\ny\n")),
 		readOp("read-ttml-unmapped-lang", "ttml", []byte(`<tt xmlns="http://www.w3.org/ns/ttml" xml:lang="de"><body><div><p begin="1s" end="2s">x</p></div></body></tt>`)),
 		{"write-ttml-stl-unknown-lang", func(string) string {
 			l := richList("u")
